@@ -340,19 +340,32 @@ func (b *ReadWrite) AllKeysChan(ctx context.Context) (<-chan cid.Cid, error) {
 
 	out := make(chan cid.Cid)
 
+	// Take a snapshot of the keys while the lock is held. The goroutine below outlives
+	// this call (and the lock), so it must not walk the index itself: a concurrent Put
+	// mutates the index's tree.
+	var keys []cid.Cid
+	if err := b.idx.ForEachCid(func(c cid.Cid, _ uint64) error {
+		keys = append(keys, c)
+		return nil
+	}); err != nil {
+		return nil, err
+	}
+
 	go func() {
 		defer close(out)
-		err := b.idx.ForEachCid(func(c cid.Cid, _ uint64) error {
-			if !b.opts.BlockstoreUseWholeCIDs {
-				c = cid.NewCidV1(cid.Raw, c.Hash())
-			}
-			select {
-			case out <- c:
-			case <-ctx.Done():
-				return ctx.Err()
+		err := func() error {
+			for _, c := range keys {
+				if !b.opts.BlockstoreUseWholeCIDs {
+					c = cid.NewCidV1(cid.Raw, c.Hash())
+				}
+				select {
+				case out <- c:
+				case <-ctx.Done():
+					return ctx.Err()
+				}
 			}
 			return nil
-		})
+		}()
 		if err != nil {
 			maybeReportError(ctx, err)
 		}
